@@ -65,7 +65,7 @@ func (m *M) offCurveX() *big.Int {
 	}
 }
 
-var lamClasses = []string{"one", "two", "small", "minus_one", "random", "random", "mont_window"}
+var lamClasses = []string{"one", "two", "small", "minus_one", "random", "random", "mont_window", "limb_struct"}
 
 func (m *M) lambda(class string) *big.Int {
 	switch class {
@@ -77,6 +77,12 @@ func (m *M) lambda(class string) *big.Int {
 		return big.NewInt(int64(3 + m.rng.Intn(1000)))
 	case "minus_one":
 		return new(big.Int).Sub(bigP, one)
+	case "limb_struct": // Z whose Montgomery-form limbs are structured per 64-bit / 32-bit unit
+		for {
+			if l := mulmod(new(big.Int).Mod(m.limbStruct(), bigP), rInvP, bigP); l.Sign() != 0 {
+				return l
+			}
+		}
 	case "mont_window": // Z whose Montgomery-form limbs lie in a boundary window
 		for {
 			w, _ := m.window()
@@ -245,12 +251,89 @@ func pointWithY(y *big.Int) (*big.Int, *big.Int) {
 	return nil, nil
 }
 
+// limbStruct returns a 256-bit value whose 64-bit limbs are independently empty / one bit / a full or
+// empty 32-bit half / all ones -- what truncation and limb-wise short-cut slips react to.
+func (m *M) limbStruct() *big.Int {
+	pats := []uint64{0, 0, 1, 1 << 32, 1 << 63, 0xffffffff00000000, 0x00000000ffffffff, ^uint64(0), uint64(m.rng.Uint32()) << 32}
+	t := new(big.Int)
+	for i := 0; i < 4; i++ {
+		t.Lsh(t, 64).Or(t, new(big.Int).SetUint64(pats[m.rng.Intn(len(pats))]))
+	}
+	if t.Sign() == 0 {
+		t.SetUint64(1 << 32)
+	}
+	return t
+}
+
+// highLimbsOfP returns a value below p that shares p's upper limbs: the low 1..3 limbs are small or random.
+func (m *M) highLimbsOfP() *big.Int {
+	k := uint(64 * (1 + m.rng.Intn(3)))
+	hi := new(big.Int).Rsh(bigP, k)
+	hi.Lsh(hi, k)
+	var lo *big.Int
+	if m.rng.Intn(2) == 0 {
+		lo = big.NewInt(int64(m.rng.Intn(1 << 20)))
+	} else {
+		lo = m.randBig(new(big.Int).Lsh(one, k))
+	}
+	t := hi.Add(hi, lo)
+	for t.Cmp(bigP) >= 0 {
+		t.Sub(t, new(big.Int).Lsh(one, k-1))
+	}
+	return t
+}
+
+// structuredPoint returns a curve point whose canonical x (or y) is limb-structured or shares p's high limbs.
+func (m *M) structuredPoint() (*big.Int, *big.Int, string) {
+	for {
+		var v *big.Int
+		cls := ""
+		if m.rng.Intn(2) == 0 {
+			v, cls = m.highLimbsOfP(), "high_limbs_of_p"
+		} else {
+			v, cls = new(big.Int).Mod(m.limbStruct(), bigP), "limb_struct"
+		}
+		if m.rng.Intn(3) != 0 {
+			if y := curveY(v); y != nil {
+				return v, y, "x_" + cls
+			}
+		} else if x, y := pointWithY(v); x != nil {
+			return x, y, "y_" + cls
+		}
+	}
+}
+
 // window returns a value of one of the boundary windows of a 256-bit representation: next to 0, 2^255,
 // (p+1)/2, p, 2^256 - 2^192 (top limb all ones), 2^192, 2^128, 2^64.
 func (m *M) window() (*big.Int, string) {
 	d := big.NewInt(int64(m.rng.Intn(1 << 20)))
 	half := new(big.Int).Rsh(new(big.Int).Add(bigP, one), 1)
-	switch m.rng.Intn(9) {
+	switch m.rng.Intn(12) {
+	case 9, 10: // the high limbs of p, the low 1..3 limbs anything below p's: comparison chains that short-cut on limbs
+		k := uint(64 * (1 + m.rng.Intn(3)))
+		hi := new(big.Int).Rsh(bigP, k)
+		hi.Lsh(hi, k)
+		var lo *big.Int
+		if m.rng.Intn(2) == 0 {
+			lo = big.NewInt(int64(m.rng.Intn(1 << 20)))
+		} else {
+			lo = m.randBig(new(big.Int).Lsh(one, k))
+		}
+		t := hi.Add(hi, lo)
+		for t.Cmp(bigP) >= 0 {
+			t.Sub(t, new(big.Int).Lsh(one, k-1))
+		}
+		return t, "high_limbs_of_p"
+	case 11: // every 64-bit limb independently empty / one bit / a full or empty 32-bit half: truncation slips
+		pats := []uint64{0, 1, 1 << 32, 1 << 63, 0xffffffff00000000, 0x00000000ffffffff, ^uint64(0), uint64(m.rng.Uint32()) << 32}
+		t := new(big.Int)
+		for i := 0; i < 4; i++ {
+			t.Lsh(t, 64).Or(t, new(big.Int).SetUint64(pats[m.rng.Intn(len(pats))]))
+		}
+		if t.Sign() == 0 {
+			t.SetUint64(1 << 32)
+		}
+		return t, "limb_halves"
 	case 0:
 		return d, "lo"
 	case 1:
